@@ -98,6 +98,10 @@ pub async fn handle_notify_get_or_head(
         return Err(req)
     }
 
+    // Subscribe before looking at the current version so we cannot miss a
+    // notification sent between the check and the start of waiting.
+    let mut notified = notify.subscribe();
+
     let wait = match need_wait(&req, history) {
         Ok(wait) => wait,
         Err(resp) => return Ok(resp),
@@ -107,7 +111,7 @@ pub async fn handle_notify_get_or_head(
     crate::verif::yield_point("notify.after_need_wait");
 
     if wait {
-        notify.subscribe().recv().await;
+        notified.recv().await;
     }
 
     if req.is_head() {
